@@ -1,4 +1,5 @@
 import ApolloModel.Proofs.BuiltinScalars2
+import ApolloModel.Proofs.BuiltinScalars3
 /-
 C16 — Validation is idempotent.
 
@@ -40,5 +41,27 @@ def demo : Schema :=
 example : (bookkeeping id demo).types.map (·.1) = ["Query", "String", "Boolean"] := by decide
 example : (bookkeeping id { bookkeeping id demo with directiveRefs := "Int" :: (bookkeeping id demo).directiveRefs }).types.map (·.1)
     = ["Query", "String", "Boolean", "Int"] := by decide
+
+/-! ### growth: the type lookup of the value check does not depend on pruning -/
+
+/-- `value_of_correct_type` finds a definition for every built-in scalar name, whether or not a previous
+    validation removed it from the type map (the repair 99806f4; before it the lookup was the map only,
+    see `lookup_map_only_misses_pruned`). -/
+theorem lookup_builtin_total (s : Schema) (b : Name) (hb : b ∈ builtinScalars) :
+    (lookupForValue s b).isSome = true := Scalars.lookup_builtin_total s b hb
+
+/-- The definition the value check sees for ANY type name is the same before and after a validation
+    pass (every well-formed map, every hash-set order): the verdict of value checks cannot change between
+    `validate(s)` and `validate(validate(s).into_inner())` because of the bookkeeping. -/
+theorem value_lookup_stable (order : List Name → List Name) (ho : IsOrder order) (s : Schema) (wf : WellFormed s)
+    (hbuilt : ∀ e ∈ s.types, builtinScalars.contains e.1 = true → e.2.isBuiltIn = true) (n : Name) :
+    lookupForValue (bookkeeping order s) n = lookupForValue s n :=
+  Scalars.value_lookup_stable order ho s wf hbuilt n
+
+/-- Witness for the old lookup: after a pass prunes `Int`, the map-only lookup of `Int` finds nothing,
+    while it found the scalar before — the value check was skipped once and ran on the next validation. -/
+theorem lookup_map_only_misses_pruned :
+    lookupMapOnly demo "Int" = some builtinDef ∧ lookupMapOnly (bookkeeping id demo) "Int" = none ∧
+      lookupForValue (bookkeeping id demo) "Int" = some builtinDef := by decide
 
 end Apollo.C16
